@@ -290,6 +290,72 @@ def judge(cases, checker, col=None):
     return fails
 
 
+ASSIGNED_LITS = ["[1]", "{1}", '{"a": 1}', "[]", "{}", "set()", "None", "False", "0", '""', "()", "1", '"a"', "(1,)", "True", "0.0", 'b""', "E.a"]
+
+
+def assigned_cases():
+    """x = A if c else B for every pair of literals (mutable and immutable, truthy and falsy)."""
+    for a in ASSIGNED_LITS:
+        for b in ASSIGNED_LITS:
+            if a != b:
+                yield a, b
+
+
+def judge_assigned(pairs, checker, col=None):
+    """The truthiness of a local holding one of two literals: `if x` / `else` sites, `not x`, `x and 1`, and the
+    always-true / always-false verdict diagnostics, against both runs (c = True, c = False)."""
+    import pv_vocab
+
+    lines = gen_prog.HEADER.rstrip("\n").split("\n")
+    for i, (a, b) in enumerate(pairs):
+        lines += [f"def f{i}(c: bool) -> None:", f"    x = {a} if c else {b}", "    if x:", "        site(x, 0)", "    else:", "        site(x, 1)",
+                  "    y = not x", "    site(y, 2)", "    z = bool(x)", "    site(z, 3)"]
+    src = "\n".join(lines) + "\n"
+    res = sut.check_source(src, checker=checker, collect_values=True, settings=sut.settings_from({"value_always_true": True, "type_always_true": True}))
+    if res.raised is not None:
+        raise res.raised
+    fdefs = [n for n in res.tree.body if isinstance(n, ast.FunctionDef)]
+    verdicts = {}
+    for d in res.diags:
+        if d.code in ("value_always_true", "type_always_true"):
+            for fd in fdefs:
+                if fd.lineno <= (d.lineno or 0) <= fd.end_lineno and d.lineno == fd.lineno + 2:
+                    verdicts[fd.name] = d.description
+    inferred = {}
+    for fd in fdefs:
+        for n in ast.walk(fd):
+            if isinstance(n, ast.Call) and isinstance(n.func, ast.Name) and n.func.id == "site":
+                inferred[(fd.name, n.args[1].value)] = res.values_of(n.args[0])
+    ns = {}
+    exec(compile(src, "<c02a>", "exec"), ns)
+    fails = []
+    for i, (a, b) in enumerate(pairs):
+        name = f"f{i}"
+        reached = {}
+        for c in (True, False):
+            pv_vocab._trace[:] = []
+            ns[name](c)
+            for site, x in pv_vocab._trace:
+                reached.setdefault(site, []).append(x)
+        if col is not None:
+            col.case(nontrivial_id=("assigned", a, b) if reached.get(0) and reached.get(1) else None, label=["form:assigned-literals"])
+        if name in verdicts and reached.get(1):
+            fails.append((f"verdict|always-true|assigned-literals", f"x = {a} if c else {b}: `if x` is reported ({verdicts[name][:80]}) but x = {reached[1][0]!r} takes the else branch", (a, b)))
+            continue
+        for site, objs in reached.items():
+            vals = inferred.get((name, site))
+            if not vals:
+                continue
+            u = sut.union_of(vals)
+            ty = member.from_value(u)
+            for o in objs:
+                if member.mem(o, ty) is False:
+                    what = {0: "the `if x` branch", 1: "the else branch", 2: "`not x`", 3: "`bool(x)`"}[site]
+                    fails.append((f"loss|assigned-literals|site{site}", f"x = {a} if c else {b}: {what} sees {o!r} but the inferred type is {u}", (a, b)))
+                    break
+    return fails
+
+
 # ----------------------------------------------------------------- API level
 
 
@@ -450,6 +516,7 @@ def shards(tier, seed):
     out += [{"mode": "families", "index": i, "of": 4} for i in range(4)]
     out += [{"mode": "api", "index": i, "of": 4} for i in range(4)]
     out.append({"mode": "tr"})
+    out += [{"mode": "assigned", "index": i, "of": 2} for i in range(2)]
     return out
 
 
@@ -462,6 +529,12 @@ def run_shard(spec):
             for key, what, case in judge(cases[k:k + 120], checker, col):
                 col.fail(key, what, {"tsrc": case[0], "form": case[1], "cond": case[2]})
         col.extra["exhaustive_families"] = "sized types x size tests (constant on either side), container tests, class tests: every (type, test) pair as if/else"
+        return col.result()
+    if spec["mode"] == "assigned":
+        pairs = [p for k, p in enumerate(assigned_cases()) if k % spec["of"] == spec["index"]]
+        for k in range(0, len(pairs), 60):
+            for key, what, case in judge_assigned(pairs[k:k + 60], checker, col):
+                col.fail(key, what, {"assigned": list(case)})
         return col.result()
     if spec["mode"] == "tr":
         cases = [("Tr", "ifelse", "x"), ("Tr", "ifelse", "not x"), ("Tr", "early-return", "x"), ("Tr", "assert", "x"),
@@ -506,6 +579,8 @@ def run_shard(spec):
 def replay_all(case):
     if case.get("api"):
         return [{"key": k, "what": w, "case": case} for k, w, _ in api_judge(case["tsrc"])]
+    if case.get("assigned"):
+        return [{"key": k, "what": w, "case": case} for k, w, _ in judge_assigned([tuple(case["assigned"])], sut.new_checker())]
     fails = judge([(case["tsrc"], case["form"], case["cond"])], sut.new_checker())
     out = []
     for k, w, _ in fails:
